@@ -75,20 +75,20 @@ def cls_sig(kind, cls):
 # ---------------------------------------------------------------- metrics (suite e2e_metrics; spec lean/SigModel/Spec/Metrics.lean)
 # which recorded deviation classes (cls= of the specification's answer, see Spec/Metrics.lean `classes`) can explain which
 # kind of disagreement; a disagreement that none of the query's classes can explain is reported without class
-M_SELECT = {"absent-label-matcher", "same-label-twice", "no-tags", "tsid-preimage-collision"}
-M_LABELS = {"value-has-comma", "json-escaped-tag-value", "tsid-preimage-collision"}
+M_SELECT = {"absent-label-matcher", "same-label-twice", "no-tags", "tsid-preimage-collision", "tag-value-over-64k"}
+M_LABELS = {"value-has-comma", "json-escaped-tag-value", "tsid-preimage-collision", "tag-value-over-64k"}
 M_RELEVANT = {
     "series-missing": M_SELECT,
-    "series-extra": {"absent-label-matcher", "same-label-twice", "tsid-preimage-collision"},
+    "series-extra": {"absent-label-matcher", "same-label-twice", "tsid-preimage-collision", "regex-on-empty-value", "tag-value-over-64k"},
     "series-merged": {"name-regex-same-tagset", "tsid-preimage-collision"},
     "series-duplicated": set(),
     "labels-changed": M_LABELS,
-    "point-missing": {"tsid-preimage-collision", "absent-label-matcher"},
+    "point-missing": {"tsid-preimage-collision", "absent-label-matcher", "tag-value-over-64k"},
     "point-extra": {"tsid-preimage-collision"},
     "value-bits-changed": {"negative-zero", "tsid-preimage-collision", "name-regex-same-tagset"},
     "query-error": set(),
 }
-M_AGG = M_SELECT | M_LABELS | {"name-regex-same-tagset", "empty-group-key"}
+M_AGG = M_SELECT | M_LABELS | {"name-regex-same-tagset", "regex-on-empty-value", "empty-group-key"}
 
 
 def m_sig(what, cls):
@@ -124,6 +124,11 @@ def m_show(key):
     return (unhex(name) if name else "") + "{" + inner + "}"
 
 
+def m_same_points(ep, gp):
+    nz = lambda v: "0000000000000000" if v == "8000000000000000" else v
+    return set(ep) == set(gp) and all(nz(ep[t]) == nz(gp[t]) for t in ep)
+
+
 def compare_metrics(ia, mb, qi):
     """selectors: exact equality of the series set, label sets, timestamps and value BITS; aggregations: exact
     rationals (avg: up to rounding).  Declared latitude (never silent):
@@ -133,7 +138,12 @@ def compare_metrics(ia, mb, qi):
       * namere=1        : the selector matches __name__ by regex; the engine reports the name as "*" (the statements speak
                           about tag keys/values); names are not compared, label sets are;
       * aggregation results: PromQL drops the metric name, the engine keeps it (or "*"); names are not compared;
-      * a result series without any point (e.g. count() over an empty selection) is the same as no series."""
+      * a result series without any point (e.g. count() over an empty selection) is the same as no series;
+      * EMPTY label values are ordinary values for identity and grouping (what the unchanged engine does, and what the
+        specification therefore states): m{a="x",z=""} and m{a="x"} are two series, reported with exactly the ingested
+        labels, and fall into the groups {z=""} and {} of `by (z)`.  PromQL would identify an empty value with an absent
+        label; the engine's ingest paths do not, the property statements do not say — no merging is granted either way,
+        because two series that the unchanged engine keeps apart must stay apart.  Matchers read absent and empty both as ""."""
     fails = []
     kind = mb.get("kind")
     cls = [c for c in mb.get("cls", "").split(",") if c]
@@ -168,9 +178,11 @@ def compare_metrics(ia, mb, qi):
     if missing or extra:
         if agg:
             fails.append((m_sig("agg-groups", cls), "query %d: groups missing %s, groups not expected %s" % (qi, [m_show(k) for k in missing][:4], [m_show(k) for k in extra][:4])))
-        elif missing and extra and (any(set(E[m][0]) == set(G[x][0]) for m in missing for x in extra)
+        elif missing and extra and ((any(m_same_points(E[m][0], G[x][0]) for m in missing for x in extra)
+                                     and (set(cls) & M_LABELS or not set(cls) & (M_RELEVANT["series-missing"] | M_RELEVANT["series-extra"])))
                                     or ("unaligned" in lat and len(missing) == len(extra) and set(cls) & M_LABELS)):
-            # the same timestamps under other labels
+            # (equal points can be a coincidence: with a recorded SELECTION class and no label class it is read as selection)
+            # the same points (up to the recorded -0 → +0 deviation) under other labels
             fails.append((m_sig("labels-changed", cls), "query %d: series %s not returned, series %s (same points) returned but never ingested under these labels" % (qi, [m_show(k) for k in missing][:4], [m_show(k) for k in extra][:4])))
         elif missing and extra:
             fails.append((m_sig("series-missing", cls), "query %d: series %s not returned" % (qi, [m_show(k) for k in missing][:4])))
